@@ -1,4 +1,5 @@
 mod alloc;
+mod c03;
 mod c05;
 mod c12;
 mod c13;
@@ -19,7 +20,7 @@ use driver::{PropDef, Tier};
 static GLOBAL: alloc::CountingAlloc = alloc::CountingAlloc;
 
 fn props() -> Vec<&'static PropDef> {
-    vec![&chan::C06, &chan::C07, &chan::C08, &reg::C01, &reg::C02, &reg::C03, &reg::C04, &reg::C18, &c14::C14, &c12::C12, &c16::C16, &c15::C15, &c13::C13, &c05::C05, &c17::C17, &iter::C09, &iter::C10, &iter::C11]
+    vec![&chan::C06, &chan::C07, &chan::C08, &reg::C01, &reg::C02, &c03::C03, &reg::C04, &reg::C18, &c14::C14, &c12::C12, &c16::C16, &c15::C15, &c13::C13, &c05::C05, &c17::C17, &iter::C09, &iter::C10, &iter::C11]
 }
 
 fn find(id: &str) -> &'static PropDef {
